@@ -701,6 +701,9 @@ func (tb *TB) Bin(op Op, a, b *Term) *Term {
 		if b.op == OConst && a.op == OAdd && a.a[1].op == OConst {
 			return tb.Bin(OAdd, a.a[0], tb.Const(w, a.a[1].c+b.c))
 		}
+		if a == b && w > 1 {
+			return tb.Bin(OShl, a, tb.Const(w, 1))
+		}
 		// (x - t) + t  and  t + (x - t)
 		if a.op == OSub && a.a[1] == b {
 			return a.a[0]
@@ -740,6 +743,9 @@ func (tb *TB) Bin(op Op, a, b *Term) *Term {
 			}
 			if b.c == 1 {
 				return a
+			}
+			if b.c&(b.c-1) == 0 {
+				return tb.Bin(OShl, a, tb.Const(w, uint64(bits.TrailingZeros64(b.c))))
 			}
 		}
 		if b.op != OConst && a.id > b.id {
@@ -795,6 +801,18 @@ func (tb *TB) Bin(op Op, a, b *Term) *Term {
 		if a.op == OConst && a.c == 0 {
 			return a
 		}
+		if op == OAShr && b.op == OConst && b.c >= 1 && b.c < uint64(w) {
+			// (2x + K) >> c == (x + K/2) >> (c-1) when 2x+K does not overflow
+			if a.op == OShl && a.a[1].op == OConst && a.a[1].c == 1 && !isFullS(a) {
+				return tb.Bin(OAShr, a.a[0], tb.Const(w, b.c-1))
+			}
+			if a.op == OAdd && a.a[1].op == OConst && a.a[1].c&1 == 0 && !isFullS(a) {
+				if x := a.a[0]; x.op == OShl && x.a[1].op == OConst && x.a[1].c == 1 && !isFullS(x) {
+					half := uint64(sext(a.a[1].c, w)>>1) & mask(w)
+					return tb.Bin(OAShr, tb.Bin(OAdd, x.a[0], tb.Const(w, half)), tb.Const(w, b.c-1))
+				}
+			}
+		}
 		if b.op == OConst && b.c >= uint64(w) {
 			if op == OAShr {
 				return tb.mk(OAShr, w, a, tb.Const(w, uint64(w)-1), nil, 0, "")
@@ -804,6 +822,12 @@ func (tb *TB) Bin(op Op, a, b *Term) *Term {
 	case OUDiv, OSDiv:
 		if b.op == OConst && b.c == 1 {
 			return a
+		}
+		// (x << k) / 2^k == x when the shift did not overflow
+		if b.op == OConst && b.c&(b.c-1) == 0 && a.op == OShl && a.a[1].op == OConst && uint64(1)<<a.a[1].c == b.c {
+			if (op == OSDiv && !isFullS(a)) || (op == OUDiv && !isFullU(a)) {
+				return a.a[0]
+			}
 		}
 	}
 	return tb.mk(op, w, a, b, nil, 0, "")
